@@ -73,6 +73,7 @@ type AtClause struct {
 	Where  string
 	Clause *Clause
 	Effect *Effect // ghost statement instead of an assertion
+	Maybe  bool    // the call site need not exist
 }
 
 var labelRe = regexp.MustCompile(`^\[([A-Za-z0-9_.,\- ]+)\]\s*`)
@@ -343,6 +344,11 @@ func ParseContractFile(path, pkgPath string) ([]*Contract, error) {
 		case "at":
 			w, r2 := splitWord(rest)
 			where := w
+			maybe := false
+			if w == "maybe-call" {
+				// like "call", but the call site need not exist (the clause constrains it if it does)
+				w, maybe = "call", true
+			}
 			if w == "call" {
 				var callee string
 				callee, r2 = splitWord(r2)
@@ -376,7 +382,7 @@ func ParseContractFile(path, pkgPath string) ([]*Contract, error) {
 			if err != nil {
 				return nil, err
 			}
-			cur.Asserts = append(cur.Asserts, &AtClause{Where: where, Clause: cl})
+			cur.Asserts = append(cur.Asserts, &AtClause{Where: where, Clause: cl, Maybe: maybe})
 		default:
 			return nil, fmt.Errorf("%s:%d: unknown clause keyword %q", path, lineNo, kw)
 		}
